@@ -22,6 +22,13 @@ CHECKS = {
     technique="TLC model checking of KVStore.tla + TLC trace validation of Stats from real churn runs"),
 }
 
+CHECKS["C01"] = dict(
+    text="DMapKey.tla (owner + backups, fragment lock, step-by-step put/get/delete) is model-checked for linearizability of every interleaving of "
+         "small client programs; concurrent histories recorded from real clusters (all entry paths, R in 1..3, single/multi-table fragments) are "
+         "accepted by TLC iff some placement of internal linearization steps explains every reply by Register.tla's Apply (RegisterTrace.tla).",
+    ref="DESIGN.md 5.2, 5.3, 8 (C01)",
+    technique="TLC model checking of DMapKey.tla + TLC trace validation (linearizability search) of real concurrent histories against Register.tla")
+
 NOT_YET = {}
 
 def main():
